@@ -57,7 +57,9 @@ SPEC = dict(
          "messages with positions); (2) recursive XSModel dump / DTDGrammar dump of A, B, C identical; (3) re-serialised streams equal (see assumptions). "
          "Stream spaces on 8 rich pools: (level) the leading level field replaced by every value 0..15 except the current one and by each of its 32 single-bit flips must "
          "raise XSerializationException; (trunc) every prefix of a ladder around every 8192-byte block boundary must be rejected with a documented exception (or be "
-         "loss-free: only zero padding removed) - the cut is moved through the structure by a pad sweep; (ladder) the same pools padded by L = 0..N-1 characters in "
+         "loss-free: only zero padding removed) - the cut is moved through the structure by a pad sweep; (full-window-shift-sweep) one annotated schema pool whose target namespace URI is padded by every L = 0..4099 characters, which shifts every later field of the stream through "
+         "all 8192 byte positions of the engine buffer, so that each string ends exactly on, one before and one behind a buffer boundary for some L (4 100 full round trips); "
+         "(ladder) the same pools padded by L = 0..N-1 characters in "
          "the namespace URI / one long value / L extra enumeration values / a long annotation so that the data crosses block boundaries at every even offset, full "
          "round-trip oracles; (long values) one entity / enumeration value longer than a block (4090..8300 characters; quick: +-40 around the length at which it ends "
          "exactly on a block boundary) on a DTD pool and an annotation-free schema pool; (locked) pools serialised after lockPool(). Non-trivial = distinct original pool dumps + rejected mutated streams.",
@@ -96,6 +98,7 @@ SPEC = dict(
             _run("truncation", "--space", "trunc", "--tier", "quick", "--hi", 12, "--modes", "1,2", "--rich", 4),
             _run("block-boundary-ladder", "--space", "ladder", "--tier", "quick", "--hi", 24, "--modes", "1,2", "--rich", 4, "--sax-only", 1),
             _run("long-value-ends-on-block-boundary", "--space", "ladder", "--tier", "quick", "--modes", "2", "--rich", 8, "--only-rich", 3, "--align-window", 40, "--sax-only", 1),
+            _run("full-window-shift-sweep", "--space", "ladder", "--tier", "quick", "--lo", 0, "--hi", 4100, "--modes", "1", "--rich", 8, "--only-rich", 0, "--sax-only", 1),
             _run("locked-pool", "--space", "locked", "--tier", "quick"),
         ],
         thorough=[
@@ -107,6 +110,8 @@ SPEC = dict(
             _run("block-boundary-ladder-list-annotation", "--space", "ladder", "--tier", "thorough", "--hi", 150, "--modes", "3,4", "--rich", 8, "--sax-only", 1),
             _run("long-value-sweep-dtd", "--space", "ladder", "--tier", "thorough", "--lo", 4090, "--hi", 8300, "--modes", "2", "--rich", 8, "--only-rich", 3, "--sax-only", 1),
             _run("long-value-sweep-schema", "--space", "ladder", "--tier", "thorough", "--lo", 4090, "--hi", 8300, "--modes", "2", "--rich", 8, "--only-rich", 5, "--sax-only", 1),
+            _run("full-window-shift-sweep-uri", "--space", "ladder", "--tier", "thorough", "--lo", 0, "--hi", 4100, "--modes", "1", "--rich", 8, "--only-rich", 0, "--sax-only", 1),
+            _run("full-window-shift-sweep-annotation", "--space", "ladder", "--tier", "thorough", "--lo", 0, "--hi", 4100, "--modes", "4", "--rich", 8, "--only-rich", 1, "--sax-only", 1),
             _run("locked-pool", "--space", "locked", "--tier", "thorough"),
         ],
     ),
